@@ -273,6 +273,69 @@ func handshakeDirect(scfg *tls.Config, sni string) hsResult {
 	return res
 }
 
+// handshakeTCP is handshakeDirect over a real loopback TCP connection (the
+// server side of tls.Server then has a *net.TCPAddr local address, as in a
+// deployed proxy; an in-memory pipe does not).
+func handshakeTCP(scfg *tls.Config, sni string) hsResult {
+	var res hsResult
+	ln, err := net.Listen("tcp", "127.0.0.1:0")
+	if err != nil {
+		res.err = err
+		return res
+	}
+	defer ln.Close()
+	type acc struct {
+		c   net.Conn
+		err error
+	}
+	ch := make(chan acc, 1)
+	go func() {
+		c, err := ln.Accept()
+		ch <- acc{c, err}
+	}()
+	a, err := net.Dial("tcp", ln.Addr().String())
+	if err != nil {
+		res.err = err
+		return res
+	}
+	ac := <-ch
+	if ac.err != nil {
+		a.Close()
+		res.err = ac.err
+		return res
+	}
+	b := ac.c
+	for _, c := range []net.Conn{a, b} {
+		if tc, ok := c.(*net.TCPConn); ok {
+			tc.SetLinger(0)
+		}
+	}
+	srv := tls.Server(b, scfg)
+	cl := tls.Client(a, &tls.Config{ServerName: sni, InsecureSkipVerify: true})
+	dl := time.Now().Add(120 * time.Second) // watchdog only
+	a.SetDeadline(dl)
+	b.SetDeadline(dl)
+	done := make(chan error, 1)
+	go func() {
+		err := srv.Handshake()
+		if err != nil {
+			b.Close()
+		}
+		done <- err
+	}()
+	res.start = time.Now()
+	res.err = cl.Handshake()
+	res.at = time.Now()
+	if res.err == nil {
+		res.chain = cl.ConnectionState().PeerCertificates
+		go io.Copy(io.Discard, cl)
+	}
+	<-done
+	a.Close()
+	b.Close()
+	return res
+}
+
 type proxyEnv struct {
 	p  *martian.Proxy
 	ln *vh.PipeListener
@@ -425,6 +488,10 @@ func runHandshakes(r *vh.Run, e *env, batch, path string, n int) {
 		var res hsResult
 		if path == "proxy" {
 			res = handshakeProxy(pe, c.Authority, c.SNI)
+		} else if rng.Intn(4) == 0 {
+			c.Path = "direct-tcp"
+			r.Case(c)
+			res = handshakeTCP(mc.TLSForHost(c.Authority), c.SNI)
 		} else {
 			res = handshakeDirect(mc.TLSForHost(c.Authority), c.SNI)
 		}
@@ -439,7 +506,7 @@ func runHandshakes(r *vh.Run, e *env, batch, path string, n int) {
 				state = "hit"
 			}
 			seen[strings.ToLower(c.Want)][serial] = true
-			r.Class(fmt.Sprintf("%s|%s|cache=%s|conc=1", path, c.Class, state))
+			r.Class(fmt.Sprintf("%s|%s|cache=%s|conc=1", c.Path, c.Class, state))
 			r.Count("handshakes_verified", 1)
 			prev = append(prev, c)
 			if i < 2 {
@@ -459,17 +526,24 @@ func runHandshakes(r *vh.Run, e *env, batch, path string, n int) {
 		}
 	}
 	if path == "direct" {
-		// refusal clauses
+		// refusal clauses, over the in-memory pipe and over real loopback TCP
 		for i, c := range []hostCase{
 			{Kind: "hs", Stream: "refuse", Idx: 0, Path: "tls-sni-only", Authority: "", SNI: "", Want: "", Class: "none/no-sni", Org: org},
 			{Kind: "hs", Stream: "refuse", Idx: 1, Path: "direct", Authority: "", SNI: "", Want: "", Class: "none/no-sni", Org: org},
+			{Kind: "hs", Stream: "refuse", Idx: 2, Path: "tls-sni-only-tcp", Authority: "", SNI: "", Want: "", Class: "none/no-sni", Org: org},
+			{Kind: "hs", Stream: "refuse", Idx: 3, Path: "direct-tcp", Authority: "", SNI: "", Want: "", Class: "none/no-sni", Org: org},
 		} {
 			r.Case(c)
 			var res hsResult
-			if i == 0 {
+			switch i {
+			case 0:
 				res = handshakeDirect(mc.TLS(), "")
-			} else {
+			case 1:
 				res = handshakeDirect(mc.TLSForHost(""), "")
+			case 2:
+				res = handshakeTCP(mc.TLS(), "")
+			default:
+				res = handshakeTCP(mc.TLSForHost(""), "")
 			}
 			r.Eval(1)
 			if ok, _ := judge(r, e, c, res); ok {
@@ -647,6 +721,10 @@ func replay(r *vh.Run, raw json.RawMessage) {
 		res = handshakeProxy(pe, c.Authority, c.SNI)
 	case "tls-sni-only":
 		res = handshakeDirect(mc.TLS(), c.SNI)
+	case "tls-sni-only-tcp":
+		res = handshakeTCP(mc.TLS(), c.SNI)
+	case "direct-tcp":
+		res = handshakeTCP(mc.TLSForHost(c.Authority), c.SNI)
 	default:
 		res = handshakeDirect(mc.TLSForHost(c.Authority), c.SNI)
 	}
